@@ -74,6 +74,9 @@ var decisionTargets = []decisionTarget{
 	{"makeRedirectFlags", "cmd/rdpgw/protocol/process.go", "", "makeRedirectFlags"},
 	{"tunnelAuthResponse", "cmd/rdpgw/protocol/process.go", "Processor", "tunnelAuthResponse"},
 	{"tunnelRequest", "cmd/rdpgw/protocol/process.go", "Processor", "tunnelRequest"},
+	{"channelRequest", "cmd/rdpgw/protocol/process.go", "Processor", "channelRequest"},
+	{"DecodeUTF16", "cmd/rdpgw/protocol/utf16.go", "", "DecodeUTF16"},
+	{"NTLMAuth", "cmd/rdpgw/web/ntlm.go", "NTLMAuthHandler", "NTLMAuth"},
 	{"readMessage", "cmd/rdpgw/protocol/common.go", "", "readMessage"},
 	{"receive", "cmd/rdpgw/protocol/common.go", "", "receive"},
 	{"forward", "cmd/rdpgw/protocol/common.go", "", "forward"},
